@@ -1470,6 +1470,14 @@ func (sc *serverConn) sendData(strm *Stream) bool {
 			}
 
 			if len(strm.pendingData) == 0 {
+				// The reader is done without handing over another byte: an
+				// empty body, or an EOF that came on its own after the last
+				// data. The peer still has to be told the stream is over, and
+				// an empty DATA frame costs no flow-control window.
+				if strm.pendingEnd {
+					sc.writeEndStream(strm.ID())
+				}
+
 				break
 			}
 		}
@@ -1509,11 +1517,32 @@ func (sc *serverConn) sendData(strm *Stream) bool {
 
 		strm.window -= step
 		sc.clientWindow -= step
+
+		// END_STREAM has gone out: nothing more may follow on this stream, so
+		// the reader is not asked again.
+		if end {
+			break
+		}
 	}
 
 	sc.closeBodyStream(strm)
 
 	return true
+}
+
+// writeEndStream ends a response whose body turned out to have nothing more to
+// send, with an empty DATA frame carrying END_STREAM.
+func (sc *serverConn) writeEndStream(id uint32) {
+	fr := AcquireFrameHeader()
+	fr.SetStream(id)
+
+	data := AcquireFrame(FrameData).(*Data)
+	data.SetEndStream(true)
+	data.SetPadding(false)
+
+	fr.SetBody(data)
+
+	sc.write(fr)
 }
 
 // flushStreams resumes any streams whose buffered response data was blocked on
